@@ -331,7 +331,7 @@ CHECKS = {
         technique="stateful property-based testing (rapid) with a storage-level backing invariant and a reference entitlement ledger",
         rule="non-trivial = history with >=1 successful release and refused attempts of >=2 different kinds",
         assumptions=HIST_ASSUME,
-        jobs=[dict(test="TestC10", quick=T(8, 8, 70), thorough=T(16, 200, 100, 3000))],
+        jobs=[dict(test="TestC10", quick=T(8, 14, 70), thorough=T(16, 200, 100, 3000))],
     ),
     "C08": dict(
         level="fault_enumeration",
